@@ -265,6 +265,12 @@ class PhaseA:
         if isinstance(test, ast.Call) and isinstance(test.func, ast.Name) and test.func.id == "isinstance" \
                 and len(test.args) == 2 and isinstance(test.args[0], ast.Name) and src(test.args[1]) == "FermionicArray":
             return test.args[0].id
+        if isinstance(test, ast.BoolOp) and isinstance(test.op, ast.And):
+            # `isinstance(x, FermionicArray) and x.phases`: when the conjunction is false, x is either not fermionic or has
+            # an empty sign table - no pending signs either way (all conjuncts must speak about the same variable)
+            names = {self.phases_test(v) for v in test.values}
+            if len(names) == 1 and None not in names:
+                return names.pop()
         return None
 
     # -- iteration / assignment ---------------------------------------------------
